@@ -10,7 +10,7 @@ K-C01: a generated PROGRAM of typed remora statements is rendered as C++ TUs (co
 import json, os, re, subprocess, time
 from concurrent.futures import ThreadPoolExecutor
 from vlib import core
-from checks import c01gen, c01neg, c01dir
+from checks import c01gen, c01neg, c01dir, c01kern
 
 TRUST = ("Lean 4.33 kernel; axioms at most propext/Classical.choice/Quot.sound (audited per run by #audit_module); ")
 MANIFEST = dict(
@@ -64,7 +64,8 @@ FINISH = dict(level="proof",
                    "counted separately as directed_evaluations); a statement is non-trivial if its right-hand side has depth >= 1; "
                    "distinct = distinct op text")
 
-LAKE_TARGETS = ["SharkVerif.Props.C01", "SharkVerif.Gen.RemoraRules", "SharkVerif.Gen.RemoraOpt", "drv_c01"]
+LAKE_TARGETS = ["SharkVerif.Props.C01", "SharkVerif.Gen.RemoraRules", "SharkVerif.Gen.RemoraOpt",
+                "SharkVerif.Gen.RemoraKernelConsts", "SharkVerif.Lemmas.RemoraKernels", "drv_c01"]
 JOBS = int(os.environ.get("C01_JOBS", "4"))
 # one thread in the harness: OpenMP/OpenBLAS worker threads spin-wait, which makes the many short harness
 # runs of a shrink very slow on a loaded machine (and a single thread keeps the kernels' summation order fixed)
@@ -278,9 +279,11 @@ CONFIGS = [("default", []), ("cblas", ["-DREMORA_USE_CBLAS"])]
 
 
 def translate(ctx):
+    ok = True
     if os.path.exists(os.path.join(core.VERIF, "translate", "remora_rules.py")):
-        return ctx.translate("remora_rules.py")
-    return True
+        ok = ctx.translate("remora_rules.py")
+    # blocking constants of the dense kernels + pinned loop skeletons (Gen/RemoraKernelConsts.lean)
+    return ctx.translate("remora_kernels.py") and ok
 
 
 def build(ctx):
@@ -319,13 +322,14 @@ def run(ctx):
         mods.append("SharkVerif.Gen.RemoraRules")
     if os.path.exists(os.path.join(core.LEAN, "SharkVerif", "Gen", "RemoraOpt.lean")):
         mods.append("SharkVerif.Gen.RemoraOpt")
+    mods += ["SharkVerif.Gen.RemoraKernelConsts", "SharkVerif.Lemmas.RemoraKernels"]
     ok = ctx.prove(mods)
     ctx.cov["rewrite_rule_lemmas_proved"] = sum(1 for n in ctx.obligations if ".rule_" in n and not n.endswith("_wf")) if ok else 0
     ctx.cov["rewrite_rule_wf_lemmas_proved"] = sum(1 for n in ctx.obligations if ".rule_" in n and n.endswith("_wf")) if ok else 0
     # every generated theorem must have been seen by the audit (one AUDIT line each)
     if ok:
         audited = {n.split(".")[-1] for n in ctx.obligations}
-        for gen in ("RemoraRules.lean", "RemoraOpt.lean"):
+        for gen in ("RemoraRules.lean", "RemoraOpt.lean", "RemoraKernelConsts.lean"):
             gp = os.path.join(core.LEAN, "SharkVerif", "Gen", gen)
             if os.path.exists(gp):
                 missing = [t for t in re.findall(r"^theorem (\S+)", open(gp).read(), re.M) if t not in audited]
@@ -345,6 +349,8 @@ def run(ctx):
     if os.environ.get("C01_ONLY_CORPUS"):      # development aid: corpus cases only
         ncases = 0
     calc = load_calc()
+    # ---- 0. the blocked kernels called directly against the kernel models (constants from the translator)
+    c01kern.run(ctx, drv)
     # ---- 1. corpus first: its own small program
     dense_c, sparse_c = corpus_program(ctx, calc)
     sparse_ok = True
